@@ -3,7 +3,7 @@
 
 use crate::util::*;
 use neurons::random::Generator;
-use neurons::tensor::{Shape, Tensor};
+use neurons::tensor::Tensor;
 use rayon::prelude::*;
 use serde_json::{json, Value};
 
@@ -148,27 +148,44 @@ pub fn replay_random(case: &Value, rep: &mut Report) {
                     }
                 }
             }
-            // randomly initialised tensors: requested shape, entries in the requested interval
-            for (shape, dims) in [
-                (Shape::Single(7), vec![7]),
-                (Shape::Double(3, 5), vec![3, 5]),
-                (Shape::Triple(2, 3, 4), vec![2, 3, 4]),
-                (Shape::Quadruple(2, 1, 3, 2), vec![2, 1, 3, 2]),
-            ] {
-                for (lo, hi) in [(-1.0f32, 1.0f32), (-7.7, -0.1), (0.25, 0.25)] {
-                    rep.checks += 1;
-                    match guarded(|| Tensor::random(shape.clone(), lo, hi)) {
-                        Err(p) => rep.mismatch("C18", "tensor_random_panicked", &id, json!({"panic": p}), case),
-                        Ok(t) => {
-                            if data_dims(&t.data) != dims || shape_dims(&t.shape) != dims || flat(&t).iter().any(|v| !(*v >= lo && *v <= hi)) {
-                                rep.mismatch("C18", "tensor_random_shape_or_range", &id, json!({"dims": dims, "min": lo, "max": hi}), case);
-                            }
+        }
+        "tensor" => {
+            // randomly initialised tensors: requested shape at every nesting position, entries in the requested interval
+            let dims = usizes(&case["shape"]);
+            let id = format!("random:tensor:{:?}", dims);
+            rep.nontrivial(id.clone());
+            let shape = shape_from(&case["shape"]);
+            for (lo, hi) in [(-1.0f32, 1.0f32), (-7.7, -0.1), (0.25, 0.25)] {
+                rep.checks += 1;
+                match guarded(|| Tensor::random(shape.clone(), lo, hi)) {
+                    Err(p) => rep.mismatch("C18", "tensor_random_panicked", &id, json!({"panic": p}), case),
+                    Ok(t) => {
+                        let v = flat(&t);
+                        if !nested_matches(&t.data, &dims) || shape_dims(&t.shape) != dims || v.len() != usize_of(case, "count") {
+                            rep.mismatch("C18", "tensor_random_shape", &id, json!({"dims": dims, "observed_outer_dims": data_dims(&t.data), "entries": v.len()}), case);
+                        } else if v.iter().any(|x| !(*x >= lo && *x <= hi)) {
+                            rep.mismatch("C18", "tensor_random_range", &id, json!({"dims": dims, "min": lo, "max": hi}), case);
                         }
                     }
                 }
             }
         }
         k => panic!("harness: unknown random kind {}", k),
+    }
+}
+
+/// Every nested vector has exactly the requested length, at every position.
+fn nested_matches(d: &neurons::tensor::Data, dims: &[usize]) -> bool {
+    use neurons::tensor::Data;
+    match (d, dims.len()) {
+        (Data::Single(a), 1) => a.len() == dims[0],
+        (Data::Double(a), 2) => a.len() == dims[0] && a.iter().all(|r| r.len() == dims[1]),
+        (Data::Triple(a), 3) => a.len() == dims[0] && a.iter().all(|r| r.len() == dims[1] && r.iter().all(|q| q.len() == dims[2])),
+        (Data::Quadruple(a), 4) => {
+            a.len() == dims[0]
+                && a.iter().all(|r| r.len() == dims[1] && r.iter().all(|q| q.len() == dims[2] && q.iter().all(|z| z.len() == dims[3])))
+        }
+        _ => false,
     }
 }
 
